@@ -288,11 +288,14 @@ func diffArray(old []interface{}, newAny interface{}) interface{} {
 
 	// Compare the array elements.
 	for i, newI := range new {
-		var oldI interface{}
-		if j := indices[i]; j != -1 {
-			oldI = old[j]
+		j := indices[i]
+		if j == -1 {
+			// The element has no counterpart in old, so always send it, even
+			// when it is null (clients start from an undefined slot).
+			d[fmt.Sprint(i)] = markReplaced(newI)
+			continue
 		}
-		if innerD := Diff(oldI, newI); innerD != nil {
+		if innerD := Diff(old[j], newI); innerD != nil {
 			d[fmt.Sprint(i)] = innerD
 		}
 	}
